@@ -182,6 +182,18 @@ def run(ctx):
         root_bool = rng.random() < 0.3
         e = gen_bool(rng, rng.randint(1, 4), small) if root_bool else gen_int(rng, rng.randint(1, 5), small)
         exprs.append((e, root_bool))
+    # constants that only fit wider words (multiples of 65536, the 24-bit extremes): the typechecker folds without knowing the
+    # word size, the twins run at 24 and 32 bits
+    wide_from = len(exprs)
+    for K in (65536, 131072, 196608, -65536, 65537, 8388607, -8388608, 16777216, 1 << 30, (1 << 31) - 65536, 327680):
+        L = ('lit', K)
+        for e, rb in ((('tobool', L), True), (('un', 'not', ('tobool', L)), True), (('bin', 'and', ('tobool', L), ('bin', 'lt', ('lit', 1), ('lit', 2))), True),
+                      (('bin', 'or', ('bin', 'gt', ('lit', 1), ('lit', 2)), ('tobool', L)), True), (('tobyte', L), False), (('bin', 'eq', L, ('lit', 0)), True),
+                      (('bin', 'div', L, ('lit', 3)), False), (('bin', 'mod', L, ('lit', 65536)), False), (('bin', 'mul', ('lit', 2), L), False),
+                      (('un', 'neg', L), False), (('toint', ('tobool', L)), False), (('bin', 'sub', L, ('lit', 1)), False),
+                      (('tobool', ('bin', 'mul', ('lit', 256), ('lit', 256))), True), (('tobool', ('bin', 'sub', L, ('lit', K))), True)):
+            exprs.append((e, rb))
+    wide_to = len(exprs)
     # (1) correspondence of evalZ with the real typechecker's folding
     with tempfile.NamedTemporaryFile('w', suffix='.txt', delete=False) as f:
         for e, _ in exprs: f.write(sexp(e) + '\n')
@@ -211,7 +223,7 @@ def run(ctx):
     idsrc = 'int id_int(int x) { return x; }\n'
     for i, (e, rb) in enumerate(exprs):
         for w in (2, 3, 4):
-            if ctx.quick and w != 2 and i % 4: continue
+            if ctx.quick and w != 2 and i % 4 and not (wide_from <= i < wide_to): continue
             for form in ('lit', 'run'):
                 src = idsrc + 'empty @is_you() { write(%s); }' % hid(e, form == 'run')
                 jobs.append(('e%d_w%d_%s' % (i, w, form), src, [], w, 100, False, 200000))
